@@ -572,10 +572,12 @@ func (c *Conn) Close() error {
 	if c.r.rclosed && c.w.wclosed {
 		return nil
 	}
-	c.P.net.E.Logf("net close %s", c.name)
-	close(c.closeCh)
+	// set the flags before close(): closing a channel is a scheduling point and
+	// a second Close of the same conn must see the first one's guard
 	c.r.rclosed = true
 	c.w.wclosed = true
+	c.P.net.E.Logf("net close %s", c.name)
+	close(c.closeCh)
 	// unread inbound data is dropped; the peer's further writes fail
 	if c.r.reset == nil {
 		c.r.reset = errors.New("simnet: broken pipe")
